@@ -1,22 +1,30 @@
 #!/bin/bash
 # usage: run.sh <property-id> <quick|thorough> [--replay file | extra args]
 # Rebuilds the harness against /repo's current working tree, then runs the check.
+# VERIF_REPO=<dir> (testing aid only) builds against another checkout of go-cty.
 set -u
 ID="$1"; TIER="${2:-quick}"; shift; shift || true
 export GOFLAGS=-mod=mod GOPROXY=off GOSUMDB=off GOTOOLCHAIN=local
 export GOCACHE=/verif/.cache/go-build
 mkdir -p /verif/.bin /verif/.work /verif/evidence /verif/replays "$GOCACHE"
 cd /verif/mc || exit 2
-cp /repo/go.sum go.sum 2>/dev/null
+REPO="${VERIF_REPO:-/repo}"
+cp "$REPO/go.sum" go.sum 2>/dev/null
 BIN=/verif/.bin/mc.$$
-if ! go build -o "$BIN" . 2>/verif/.work/build.$$.log; then
+MODARGS=()
+if [ "$REPO" != "/repo" ]; then
+  sed "s#=> /repo#=> $REPO#" go.mod > /verif/.work/go.$$.mod
+  cp go.sum /verif/.work/go.$$.sum
+  MODARGS=(-modfile=/verif/.work/go.$$.mod)
+fi
+if ! go build "${MODARGS[@]}" -o "$BIN" . 2>/verif/.work/build.$$.log; then
   # a tree that does not compile is not a property violation; report and fail hard
   cat /verif/.work/build.$$.log >&2
-  echo "HARNESS-ERROR: build failed against /repo working tree" >&2
-  rm -f /verif/.work/build.$$.log
+  echo "HARNESS-ERROR: build failed against $REPO working tree" >&2
+  rm -f /verif/.work/build.$$.log /verif/.work/go.$$.mod /verif/.work/go.$$.sum
   exit 2
 fi
-rm -f /verif/.work/build.$$.log
+rm -f /verif/.work/build.$$.log /verif/.work/go.$$.mod /verif/.work/go.$$.sum
 "$BIN" "$ID" "$TIER" "$@"
 rc=$?
 rm -f "$BIN"
